@@ -1,0 +1,351 @@
+//go:build verif
+
+package storagesc
+
+// Read-only snapshot exporter used by the model-based verification harness (/verif).
+// Add-only file, compiled only with the build tag `verif`; it decodes the contract's own MPT
+// nodes with the contract's own getters and copies the numbers into plain structs.
+
+import (
+	cstate "0chain.net/chaincore/chain/state"
+	"0chain.net/smartcontract/stakepool/spenum"
+	"github.com/0chain/common/core/util"
+)
+
+// VerifStorageQuery names the objects to look up (MPT keys are hashed, so they cannot be enumerated).
+type VerifStorageQuery struct {
+	Allocations []string
+	Blobbers    []string
+	Validators  []string
+	Clients     []string    // read pools
+	Assigners   []string    // free-storage assigners
+	ReadKeys    [][3]string // (blobber, client, allocation) read-marker counters
+	StakePoolAt []string    // further ids under which a blobber/validator stake pool node may exist
+}
+
+type VerifStorageBlobberAlloc struct {
+	BlobberID       string
+	Size            int64
+	UsedSize        int64
+	WritePrice      uint64
+	ReadPrice       uint64
+	Offer           uint64
+	ChallengeValue  uint64 // ChallengePoolIntegralValue
+	ChallengeReward uint64
+	ReadReward      uint64
+	Returned        uint64
+	Penalty         uint64
+	OpenChallenges  int64
+	TotalChallenges int64
+	LatestFinalized int64
+	LatestSuccess   int64
+	AllocationRoot  string
+	LastWMTimestamp int64
+}
+
+type VerifStorageAlloc struct {
+	ID               string
+	Present          bool // allocation node exists in the MPT
+	Owner            string
+	Size             int64
+	DataShards       int
+	ParityShards     int
+	Expiration       int64
+	StartTime        int64
+	Finalized        bool
+	Canceled         bool
+	Enterprise       bool
+	WritePool        uint64
+	MovedToChallenge uint64
+	MovedBack        uint64
+	MovedToValidator uint64
+	UsedSize         int64
+	Blobbers         []VerifStorageBlobberAlloc
+	HasChallengePool bool
+	ChallengePool    uint64
+	OpenChallenges   []VerifStorageOpenChallenge
+}
+
+type VerifStorageOpenChallenge struct {
+	ID         string
+	BlobberID  string
+	Created    int64
+	Round      int64
+	Validators []string
+	Present    bool // storage challenge node exists
+}
+
+type VerifStorageDelegate struct {
+	ID      string
+	Balance uint64
+	Reward  uint64
+	Status  int
+}
+
+type VerifStorageStakePool struct {
+	Present     bool
+	TotalOffers uint64
+	Reward      uint64
+	Killed      bool
+	Delegates   []VerifStorageDelegate
+}
+
+type VerifStorageProvider struct {
+	ID         string
+	Present    bool
+	Validator  bool
+	Capacity   int64
+	Allocated  int64
+	SavedData  int64
+	WritePrice uint64
+	ReadPrice  uint64
+	Killed     bool
+	ShutDown   bool
+	Restricted bool
+	Enterprise bool
+	LastHealth int64
+	StakePool  VerifStorageStakePool
+}
+
+type VerifStorageReadPool struct {
+	Client  string
+	Present bool
+	Balance uint64
+}
+
+type VerifStorageAssigner struct {
+	ID        string
+	Present   bool
+	IndLimit  uint64
+	TotLimit  uint64
+	Redeemed  uint64
+	Nonces    []int64
+	PublicKey string
+}
+
+type VerifStorageReadCounter struct {
+	Blobber, Client, Allocation string
+	Present                     bool
+	Counter                     int64
+}
+
+type VerifStorageExtraPool struct {
+	ID        string
+	Validator bool
+	StakePool VerifStorageStakePool
+}
+
+type VerifStorageSnap struct {
+	ExtraPools  []VerifStorageExtraPool // stake pool nodes found under ids that are not providers
+	Allocations []VerifStorageAlloc
+	Blobbers    []VerifStorageProvider
+	Validators  []VerifStorageProvider
+	ReadPools   []VerifStorageReadPool
+	Assigners   []VerifStorageAssigner
+	ReadCtrs    []VerifStorageReadCounter
+}
+
+func VerifStorageAbsent(err error) bool { return err == util.ErrValueNotPresent }
+
+func VerifStorageStakePoolOf(pt spenum.Provider, id string, balances cstate.StateContextI) (VerifStorageStakePool, error) {
+	var out VerifStorageStakePool
+	sp, err := getStakePool(pt, id, balances)
+	if err != nil {
+		if VerifStorageAbsent(err) {
+			return out, nil
+		}
+		return out, err
+	}
+	out.Present = true
+	out.TotalOffers = uint64(sp.TotalOffers)
+	out.Reward = uint64(sp.Reward)
+	out.Killed = sp.HasBeenKilled
+	for _, pid := range sp.OrderedPoolIds() {
+		dp := sp.Pools[pid]
+		out.Delegates = append(out.Delegates, VerifStorageDelegate{ID: pid, Balance: uint64(dp.Balance), Reward: uint64(dp.Reward), Status: int(dp.Status)})
+	}
+	return out, nil
+}
+
+// VerifStorageSnapshot reads the queried storage-contract objects from the given state.
+func VerifStorageSnapshot(balances cstate.StateContextI, q VerifStorageQuery) (*VerifStorageSnap, error) {
+	snap := &VerifStorageSnap{}
+	scID := ADDRESS
+	for _, id := range q.Allocations {
+		a := VerifStorageAlloc{ID: id}
+		sa := new(StorageAllocation)
+		err := balances.GetTrieNode(GetAllocKey(scID, id), sa)
+		switch {
+		case err == nil:
+			a.Present = true
+			b := sa.mustBase()
+			a.Owner, a.Size, a.DataShards, a.ParityShards = b.Owner, b.Size, b.DataShards, b.ParityShards
+			a.Expiration, a.StartTime = int64(b.Expiration), int64(b.StartTime)
+			a.Finalized, a.Canceled = b.Finalized, b.Canceled
+			a.WritePool, a.MovedToChallenge, a.MovedBack, a.MovedToValidator = uint64(b.WritePool), uint64(b.MovedToChallenge), uint64(b.MovedBack), uint64(b.MovedToValidators)
+			if b.Stats != nil {
+				a.UsedSize = b.Stats.UsedSize
+			}
+			if sa.Entity().GetVersion() == "v2" {
+				if v2, ok := sa.Entity().(*storageAllocationV2); ok && v2.IsEnterprise != nil {
+					a.Enterprise = *v2.IsEnterprise
+				}
+			}
+			for _, d := range b.BlobberAllocs {
+				ba := VerifStorageBlobberAlloc{BlobberID: d.BlobberID, Size: d.Size, WritePrice: uint64(d.Terms.WritePrice), ReadPrice: uint64(d.Terms.ReadPrice),
+					Offer: uint64(d.Offer()), ChallengeValue: uint64(d.ChallengePoolIntegralValue), ChallengeReward: uint64(d.ChallengeReward),
+					ReadReward: uint64(d.ReadReward), Returned: uint64(d.Returned), Penalty: uint64(d.Penalty),
+					LatestFinalized: int64(d.LatestFinalizedChallCreatedAt), LatestSuccess: int64(d.LatestSuccessfulChallCreatedAt)}
+				if d.Stats != nil {
+					ba.UsedSize, ba.OpenChallenges, ba.TotalChallenges = d.Stats.UsedSize, d.Stats.OpenChallenges, d.Stats.TotalChallenges
+				}
+				ba.AllocationRoot = d.AllocationRoot
+				if d.LastWriteMarker != nil {
+					ba.LastWMTimestamp = int64(d.LastWriteMarker.mustBase().Timestamp)
+				}
+				a.Blobbers = append(a.Blobbers, ba)
+			}
+		case VerifStorageAbsent(err):
+		default:
+			return nil, err
+		}
+		cp := newChallengePool()
+		err = balances.GetTrieNode(challengePoolKey(scID, id), cp)
+		switch {
+		case err == nil:
+			a.HasChallengePool = true
+			a.ChallengePool = uint64(cp.Balance)
+		case VerifStorageAbsent(err):
+		default:
+			return nil, err
+		}
+		ac := new(AllocationChallenges)
+		ac.AllocationID = id
+		err = balances.GetTrieNode(ac.GetKey(scID), ac)
+		switch {
+		case err == nil:
+			for _, oc := range ac.OpenChallenges {
+				o := VerifStorageOpenChallenge{ID: oc.ID, BlobberID: oc.BlobberID, Created: int64(oc.CreatedAt), Round: oc.RoundCreatedAt}
+				ch := new(StorageChallenge)
+				ch.ID = oc.ID
+				if e := balances.GetTrieNode(ch.GetKey(scID), ch); e == nil {
+					o.Present = true
+					o.Validators = append(o.Validators, ch.ValidatorIDs...)
+				} else if !VerifStorageAbsent(e) {
+					return nil, e
+				}
+				a.OpenChallenges = append(a.OpenChallenges, o)
+			}
+		case VerifStorageAbsent(err):
+		default:
+			return nil, err
+		}
+		snap.Allocations = append(snap.Allocations, a)
+	}
+	for _, id := range q.Blobbers {
+		p := VerifStorageProvider{ID: id}
+		sn := &StorageNode{}
+		err := balances.GetTrieNode(blobberKey(id), sn)
+		switch {
+		case err == nil:
+			b := sn.mustBase()
+			p.Present = true
+			p.Capacity, p.Allocated, p.SavedData = b.Capacity, b.Allocated, b.SavedData
+			p.WritePrice, p.ReadPrice = uint64(b.Terms.WritePrice), uint64(b.Terms.ReadPrice)
+			p.Killed, p.ShutDown = b.IsKilled(), b.IsShutDown()
+			p.LastHealth = int64(b.LastHealthCheck)
+			switch e := sn.Entity().(type) {
+			case *storageNodeV2:
+				p.Restricted = e.IsRestricted != nil && *e.IsRestricted
+			case *storageNodeV3:
+				p.Restricted = e.IsRestricted != nil && *e.IsRestricted
+				p.Enterprise = e.IsEnterprise != nil && *e.IsEnterprise
+			}
+		case VerifStorageAbsent(err):
+		default:
+			return nil, err
+		}
+		sp, err := VerifStorageStakePoolOf(spenum.Blobber, id, balances)
+		if err != nil {
+			return nil, err
+		}
+		p.StakePool = sp
+		snap.Blobbers = append(snap.Blobbers, p)
+	}
+	for _, id := range q.Validators {
+		p := VerifStorageProvider{ID: id, Validator: true}
+		v, err := getValidator(id, balances)
+		switch {
+		case err == nil:
+			p.Present = true
+			p.Killed, p.ShutDown = v.IsKilled(), v.IsShutDown()
+			p.LastHealth = int64(v.LastHealthCheck)
+		case VerifStorageAbsent(err):
+		default:
+			return nil, err
+		}
+		sp, err := VerifStorageStakePoolOf(spenum.Validator, id, balances)
+		if err != nil {
+			return nil, err
+		}
+		p.StakePool = sp
+		snap.Validators = append(snap.Validators, p)
+	}
+	for _, id := range q.StakePoolAt {
+		for _, pt := range []spenum.Provider{spenum.Blobber, spenum.Validator} {
+			sp, err := VerifStorageStakePoolOf(pt, id, balances)
+			if err != nil {
+				return nil, err
+			}
+			if sp.Present {
+				snap.ExtraPools = append(snap.ExtraPools, VerifStorageExtraPool{ID: id, Validator: pt == spenum.Validator, StakePool: sp})
+			}
+		}
+	}
+	for _, id := range q.Clients {
+		r := VerifStorageReadPool{Client: id}
+		rp := new(readPool)
+		err := balances.GetTrieNode(readPoolKey(scID, id), rp)
+		switch {
+		case err == nil:
+			r.Present, r.Balance = true, uint64(rp.Balance)
+		case VerifStorageAbsent(err):
+		default:
+			return nil, err
+		}
+		snap.ReadPools = append(snap.ReadPools, r)
+	}
+	for _, id := range q.Assigners {
+		a := VerifStorageAssigner{ID: id}
+		fsa := new(freeStorageAssigner)
+		err := balances.GetTrieNode(freeStorageAssignerKey(scID, id), fsa)
+		switch {
+		case err == nil:
+			a.Present = true
+			a.IndLimit, a.TotLimit, a.Redeemed = uint64(fsa.IndividualLimit), uint64(fsa.TotalLimit), uint64(fsa.CurrentRedeemed)
+			a.Nonces = append(a.Nonces, fsa.RedeemedNonces...)
+			a.PublicKey = fsa.PublicKey
+		case VerifStorageAbsent(err):
+		default:
+			return nil, err
+		}
+		snap.Assigners = append(snap.Assigners, a)
+	}
+	for _, k := range q.ReadKeys {
+		c := VerifStorageReadCounter{Blobber: k[0], Client: k[1], Allocation: k[2]}
+		rc := &ReadConnection{ReadMarker: &ReadMarker{BlobberID: k[0], ClientID: k[1], AllocationID: k[2]}}
+		last := &ReadConnection{}
+		err := balances.GetTrieNode(rc.GetKey(scID), last)
+		switch {
+		case err == nil:
+			if last.ReadMarker != nil {
+				c.Present, c.Counter = true, last.ReadMarker.ReadCounter
+			}
+		case VerifStorageAbsent(err):
+		default:
+			return nil, err
+		}
+		snap.ReadCtrs = append(snap.ReadCtrs, c)
+	}
+	return snap, nil
+}
